@@ -112,7 +112,7 @@ Fixpoint mr (encl : list Z) (rules : list rule) (out : list rule) (prev : option
                 end in
       mr encl rest (out ++ [r']) None
     | RCond tok pre body =>
-      if is_nil body && (tok =? 1) then mr encl rest out prev   (* atKnownRuleCanBeRemovedIfEmpty: tok 1 = supports; 2 = container is kept *)
+      if is_nil body then mr encl rest out prev   (* atKnownRuleCanBeRemovedIfEmpty: supports, container *)
       else mr encl rest (out ++ [r]) None
     | RMedia q body =>
       if is_nil body then mr encl rest out prev
@@ -156,7 +156,7 @@ Definition mangle_rules (encl : list Z) (rules : list rule) (top : bool) : list 
    mangled when its at-rule is parsed, with the @media rules enclosing it) *)
 Fixpoint mangle_tree (encl : list Z) (r : rule) : rule :=
   match r with
-  | RSel sels decls => RSel sels (remove_dead_decls decls)
+  | RSel sels decls => RSel (merge_sels [] sels) (remove_dead_decls decls)   (* the selector parser omits duplicate selectors when minifying *)
   | RMedia q body => RMedia q (mangle_rules (encl ++ [q]) (map (mangle_tree (encl ++ [q])) body) false)
   | RCond tok pre body => RCond tok pre (mangle_rules encl (map (mangle_tree encl) body) false)
   | RLayer names aid body => RLayer names aid (mangle_rules encl (map (mangle_tree encl) body) false)
